@@ -235,6 +235,29 @@ Definition judge_rule (case obs : sx) : sx :=
             else if String.eqb meth "exponential" then
               consecutive_exact l && geometric (to_edges l) && covers_approx l lo hi &&
               match (x <- fld "bin_count" case ;; d_nat x) with Some k => Nat.eqb (length l) k | None => false end
+            else if String.eqb meth "scott" || String.eqb meth "freedman" || String.eqb meth "blocks" then
+              (* astropy's rules: the edges are astropy's own; Scott: w = 3.5 sigma / n^(1/3), Freedman-Diaconis: w = 2 IQR / n^(1/3)
+                 (stated on cubes / squares to stay rational) *)
+              consecutive_exact l &&
+              match (x <- fld "ref" obs ;; d_qs x) with
+              | Some ref => all2 Qceqb (to_edges l) ref && Nat.eqb (length ref) (length (to_edges l))
+              | None => false end &&
+              (if String.eqb meth "blocks" then true else
+               match to_edges l, (x <- fld "sorted" case ;; d_qs x) with
+               | e0 :: e1 :: _, Some s =>
+                   let w := e1 - e0 in
+                   let n := qz (Z.of_nat (length s)) in
+                   let w3n := w * w * w * n in
+                   forallb (fun d => Qcleb (Qcabs (d - w)) (mkq 1 1000000 * w)) (diffs (to_edges l)) &&
+                   (if String.eqb meth "scott" then
+                      let mu := sumq s / n in
+                      let var := sumq (map (fun x => (x - mu) * (x - mu)) s) / n in
+                      let k := mkq 7 2 in
+                      Qcleb (Qcabs (w3n * w3n - k * k * k * k * k * k * var * var * var)) (mkq 1 1000000 * (w3n * w3n))
+                    else
+                      let iqr := quantile_spec s (mkq 3 4) - quantile_spec s (mkq 1 4) in
+                      Qcleb (Qcabs (w3n - qz 8 * iqr * iqr * iqr)) (mkq 1 1000000 * w3n))
+               | _, _ => false end)
             else if String.eqb meth "static" then
               match (x <- fld "given" case ;; d_bins x) with Some g => bins_eqb g l | None => false end
             else false in
